@@ -57,7 +57,8 @@ pub fn configs(prop: &str, thorough: bool) -> Vec<(Cfg, Option<usize>)> {
                     out.push((c, None));
                 }
             }
-            // instantiate messages that must be refused
+            // unusual instantiate messages: repeated accounts (whether refused or merged, the supply must equal the
+            // sum of the listed balances afterwards) and sums beyond u128 (which no supply can represent: refused)
             for (n, init, mint) in [
                 ("dup", vec![(0u8, 1u128), (0, 1)], None),
                 ("dup3", vec![(0, 1), (1, 1), (0, 2)], None),
@@ -68,14 +69,12 @@ pub fn configs(prop: &str, thorough: bool) -> Vec<(Cfg, Option<usize>)> {
                 ("dup-both-zero", vec![(0, 0), (1, 1), (0, 0)], None),
                 ("overflow", vec![(0, MAX), (1, 1)], None),
                 ("overflow2", vec![(0, MAX - 1), (1, 1), (2, 1)], Some((3u8, None))),
-                ("cap<initial", vec![(0, 3)], Some((3, Some(2u128)))),
-                ("cap<sum-of-two", vec![(0, 2), (1, 2)], Some((3, Some(3u128)))),
             ] {
-                let mut c = Cfg::base(&format!("C01/refuse/{n}"));
+                let mut c = Cfg::base(&format!("C01/instantiate/{n}"));
                 c.props = p.clone();
                 c.initial = init;
                 c.mint = mint;
-                c.inst_must_fail = true;
+                c.inst_must_fail = n.starts_with("overflow");
                 out.push((c, Some(0)));
             }
             // one account named twice in two spellings (bech32 is case-insensitive as a whole): accepted only
